@@ -972,6 +972,22 @@ func TestOwnership(t *testing.T) {
 		c.Set("Set-Cookie", "sid=1; Max-Age=abc")
 		return c.SendString(c.Params("id") + ":rejected")
 	})
+	// a slow redirect: the call often times out first, its caller releases the pooled Request and the next call
+	// configures it anew - the hop that follows the late redirect still has to carry the cookies of ITS call
+	var hopBad, hops int64
+	var hopFirst atomic.Value
+	app.Get("/hop/:id", func(c fiber.Ctx) error {
+		time.Sleep(3 * time.Millisecond)
+		return c.Redirect().To("/land/" + c.Params("id"))
+	})
+	app.Get("/land/:id", func(c fiber.Ctx) error {
+		atomic.AddInt64(&hops, 1)
+		if who := c.Cookies("who"); who != c.Params("id") {
+			atomic.AddInt64(&hopBad, 1)
+			hopFirst.CompareAndSwap(nil, fmt.Sprintf("the redirect hop of request %s arrived with cookie who=%q (tenant=%q)", c.Params("id"), who, c.Cookies("tenant")))
+		}
+		return c.SendString(c.Params("id") + ":" + padding)
+	})
 	ln := fasthttputil.NewInmemoryListener()
 	go func() { _ = app.Listener(ln, fiber.ListenConfig{DisableStartupMessage: true}) }()
 	defer func() { _ = app.Shutdown() }()
@@ -995,7 +1011,7 @@ func TestOwnership(t *testing.T) {
 			return a, nil
 		}
 		return ln.Dial()
-	})
+	}).SetCookieJar(client.AcquireCookieJar())
 	var bad, ok, timeouts, failing int64
 	var first atomic.Value
 	var wg sync.WaitGroup
@@ -1032,7 +1048,22 @@ func TestOwnership(t *testing.T) {
 					vk.Rec.Count("ownership", uint64(g)<<32|uint64(i), true, []string{"response-hook-fails"}, func() any { return map[string]any{"id": id} })
 					continue
 				}
-				resp, err := cl.R().SetTimeout(to).Get("http://example.com/" + id)
+				var resp *client.Response
+				var err error
+				if (g*5+i*3+seed)%4 == 0 {
+					req := client.AcquireRequest().SetClient(cl).SetCookie("who", id).SetMaxRedirects(2).SetTimeout(to)
+					resp, err = req.Get("http://example.com/hop/" + id)
+					if err != nil {
+						client.ReleaseRequest(req) // (a response releases its request when it is closed)
+					}
+					if nx := client.AcquireRequest(); err != nil {
+						// whoever takes the object from the pool next
+						nx.SetCookie("who", "somebody-else").SetCookie("tenant", "other")
+						client.ReleaseRequest(nx)
+					}
+				} else {
+					resp, err = cl.R().SetTimeout(to).Get("http://example.com/" + id)
+				}
 				if err != nil {
 					if strings.Contains(err.Error(), "vk-foreign") {
 						// the healthy host never produces this error: it is the late failure of somebody else's abandoned request
@@ -1055,7 +1086,12 @@ func TestOwnership(t *testing.T) {
 		}(g)
 	}
 	wg.Wait()
-	vk.Rec.Extra("ownership", map[string]int64{"ok": ok, "bad": bad, "timeouts": timeouts, "failing_transport_requests": failing})
+	time.Sleep(30 * time.Millisecond) // hops of abandoned calls still under way
+	if n := atomic.LoadInt64(&hopBad); n > 0 {
+		atomic.AddInt64(&bad, n)
+		first.CompareAndSwap(nil, fmt.Sprintf("%d of %d redirect hops carried cookies of another call; first: %v", n, atomic.LoadInt64(&hops), hopFirst.Load()))
+	}
+	vk.Rec.Extra("ownership", map[string]int64{"ok": ok, "bad": bad, "timeouts": timeouts, "failing_transport_requests": failing, "redirect_hops": atomic.LoadInt64(&hops)})
 	if bad > 0 {
 		msg := fmt.Sprintf("%d of %d results handed back do not belong to their request while %d other requests timed out and %d had a failing transport; first: %v", bad, ok+bad, timeouts, failing, first.Load())
 		path := vk.SaveReplay(propOwn, OwnCase{Note: msg}, msg)
